@@ -112,7 +112,37 @@ def main(tier, replay):
         "expectation side) within 2e-4 relative + 2e-5 (the ray tracing works on float coordinates; observed <= 2e-5), the smooth "
         "cylinder's exp(mu x 2 sqrt(R^2-d^2)) within 20 % for d <= 0.6 R, undo(apply(1)) = 1; for every 7th (thorough: 3rd) bin of the box "
         "cases the Lean model computes the same factor itself (`acfBox` at binary64: clipping, sqrt, exp) and the answer is compared with "
-        "rel = 2e-4.")
+        "rel = 2e-4.  "
+        "ONE OBJECT THROUGH CONSTRUCTORS, parse() AND set_up (fourth extension, section K; ParsingObject::parse does not call "
+        "set_defaults): for every normalisation class with parsing keys that needs no scanner files - BinNormalisationFromProjData "
+        "(factor files written by the harness as Interfile: non-TOF factors A, B, TOF factors C; objects made by the default constructor, "
+        "from a file name, from a ProjData object; parse A -> set_up -> use -> parse B -> ... -> parse C with TOF data -> parse A with TOF "
+        "data (possibly one TOF bin) -> set_up again for fewer segments -> two parses without a set_up in between (`usable`: the object "
+        "stays set up) -> parse B), BinNormalisationFromAttenuationImage (two image files of different size / voxel size / values and one "
+        "image object; default constructor, constructor from an image object, from a file name; parse with a matrix projector block, with "
+        "another one, without a projector key; set_up again for fewer segments) and ChainedBinNormalisation (default constructor and "
+        "constructor from member objects with a null member; texts (FromProjData A, Attenuation A), (Attenuation B, FromProjData B), "
+        "(None, FromProjData A), (Attenuation A, None), (FromProjData B, Attenuation A); `usable` after a parse: the new members were never "
+        "set up) - after EVERY set_up all oracles above run (the expectations - stored factors, matrix rows x voxel values, member "
+        "factors measured on fresh member objects - come from the data the harness wrote into the files, not from the object), every "
+        "correspondence line runs, and is_trivial / get_bin_efficiency / undo / apply are compared BITWISE with a fresh object parsed once "
+        "with the same text.  The Lean side follows each object as a state machine across the whole history (`hist <id> "
+        "newfpd|ctorfpd|parse fpd|setup fpd`, `newatten|ctoratten file|image|parse atten|setup atten <images offered so far>`, "
+        "`newchain|parse chain <member|null|->|setup chain`): FpdObj (stored factors replaced unconditionally by parse; set_up sets the "
+        "state before it compares), AttenObj (which image the object holds and whether post_processing has rescaled it: the file is "
+        "read whenever a file name is known and the image is rescaled once - repaired code, fix C13-1; instance C13_atten_second_parse), "
+        "ChainObj (members replaced per key, None = null).  "
+        "TOF DATA MASHED TO ANY NUMBER OF TOF BINS (section C/E): scanners with 5 / 9 / 15 TOF bins, mashing factor 1, a proper divisor "
+        "(9/3, 15/3, 15/5) and the maximum (ONE TOF bin: is_tof_data() is true) in every round: trivial, table, calibrated, FromProjData "
+        "with non-TOF and with TOF factors, chains of them, the same with factors that have more segments than the data; set_up must "
+        "succeed (a refusal is an ORACLE-FAIL) and apply must multiply by the stored factor (TOF position 0 for non-TOF factors); "
+        "set_up decisions (`setup fpdtof`): the harness sends the TOF mashing factors of factors and data and the five comparisons of the "
+        "factor geometry with the data geometry as it is AND with its non-TOF clone - which of the two counts is decided by the model "
+        "(fromProjDataSetUpTof: the clone iff the factors are not TOF data and the data are, by is_tof_data, not by the number of TOF "
+        "bins) - for non-TOF / TOF factors of the data's mashing, of every other admissible mashing factor (must be refused), other "
+        "tangential sizes, TOF factors with non-TOF data (refused); is_TOF_only_norm of every FromProjData object (`tofonly`); the "
+        "attenuation class refuses TOF data with one TOF bin as it refuses all TOF data (model: is_tof_data() is the test - repaired code, "
+        "fix C13-2; if it ever accepts them the factors must be those of the non-TOF clone).")
     chk.assumptions += ["float rounding is bounded, not modelled; overflow/underflow of float not modelled (generated values stay in range)",
                         "matrix rows of the ray-tracing projector (also used as the expectation for the on-the-fly default projector: agreement "
                         "of the two away from the edge of the field of view is C04's subject), detector pairs of bins, and - for the cases "
@@ -130,7 +160,18 @@ def main(tier, replay):
                         "section J: the end points of a bin's LOR (ProjDataInfo::get_LOR, LORAs2Points: C01) are data for the analytic "
                         "expectation; the image has one plane more on each side than the scanner (in the standard image the tube of "
                         "response of an end ring is 1/4 outside the image, and the factor there is smaller by design); maps are uniform "
-                        "in z; the `acf` tolerance 2e-4 is an observed-error budget, not a derived bound"]
+                        "in z; the `acf` tolerance 2e-4 is an observed-error budget, not a derived bound",
+                        "section K: reading a factor / image file back (ProjData::read_from_file, read_from_file<DiscretisedDensity>, the "
+                        "Interfile writers) is C02/C10's subject: the model is given the values the harness wrote, and the comparison of the "
+                        "geometry read back with the data geometry is data; texts always give every key (with another value) that the "
+                        "previous text gave - that a key that does not occur leaves the old value alone (KeyParser) is modelled for the "
+                        "members of a chain only; the projector made by the parser is taken to have the settings of the text and "
+                        "defaults otherwise; BinNormalisationPETFromComponents and BinNormalisationWithCalibration have no parsing keys, "
+                        "the calibrated classes with keys (ECAT7/ECAT8/GE HDF5/SPECT) need scanner files; a default-constructed "
+                        "FromProjData / FromAttenuationImage object is never set up before it has been parsed (null pointer dereference "
+                        "in the C++)",
+                        "TOF data with one TOF bin are not given to the attenuation class with its default projector "
+                        "(ForwardProjectorByBinUsingRayTracing ends in error() or SIGSEGV there: C04's subject)"]
     if audit:
         vlib.proof_coverage(chk, audit, "cd lean && lake build StirVerif.C13.Props Driver.C13 && lake env lean ../build/out/Audit_C13.lean")
     return chk.finish()
